@@ -245,6 +245,33 @@ fn step_fn(real: &SvgOptions, model: &Model, op: &Op) -> (Option<SvgOptions>, Mo
         Op::ImagePosition(p) => {
             if p.len() == 2 {
                 m.position = Some((p[0], p[1]));
+            } else {
+                // an array that is not [x, y] has no native counterpart: the call may be ignored, or may take the
+                // first two entries (like a malformed colour it must not trap and must leave a state the native API
+                // can express). The candidate that reproduces the export is adopted; none = violation.
+                let mut cands: Vec<Option<(f64, f64)>> = vec![model.position];
+                if p.len() > 2 {
+                    cands.push(Some((p[0], p[1])));
+                    cands.push(Some((p[p.len() - 2], p[p.len() - 1])));
+                }
+                let probe = next.clone().image("probe.png".to_string());
+                let got = subject::guarded(|| qr_svg("1", probe));
+                let mut adopted = None;
+                if let Ok(got) = &got {
+                    for c in &cands {
+                        let mut pm = Model { position: *c, ..m.clone() };
+                        pm.image = "probe.png".to_string();
+                        if pm.native_svg("1").ok().as_ref() == Some(got) {
+                            adopted = Some(*c);
+                            break;
+                        }
+                    }
+                }
+                match (got, adopted) {
+                    (Err(msg), _) => f.push(("qr_svg-panic".to_string(), format!("after {}: qr_svg panicked: {}", op.to_json(), msg))),
+                    (Ok(_), Some(c)) => m.position = c,
+                    (Ok(_), None) => f.push(("position-state-invalid".to_string(), format!("after {} (an array that is not [x, y]) the export matches neither the previous position nor the first / last two entries", op.to_json()))),
+                }
             }
         }
         Op::ModuleColor(s) | Op::Background(s) | Op::ImageBackground(s) => {
@@ -581,6 +608,16 @@ pub fn run(ctx: &Ctx) -> Collector {
         strings.extend(nl.iter().cloned());
         level = nl;
     }
+    // k valid hex pairs (k = 0..5) followed by a tail that is not a pair of hex digits, with and without '#'
+    let n_short = strings.len();
+    for hash in ["#", ""] {
+        for k in 0..=5usize {
+            for tail in ["", "z", "zz", "0", " ", "\u{e9}", "0z", "z0", "zz00", " !important", ";}", ", 00ff00"] {
+                strings.push(format!("{}{}{}", hash, ["a1", "0b", "c2", "7f", "e0"][..k].concat(), tail));
+            }
+        }
+    }
+    let n_tails = strings.len() - n_short;
     let model0 = Model::default();
     pool::par_for(strings.len(), |i| {
         for which in 0..3 {
@@ -600,7 +637,7 @@ pub fn run(ctx: &Ctx) -> Collector {
             }
         }
     });
-    col.space(json!({"name": "short colour strings", "cases": strings.len() * 3, "what": "all 3906 strings of length <= 5 over {# 0 f g e-acute} through module_color, background_color, image_background_color, then qr_svg vs native", "exhaustive": true}));
+    col.space(json!({"name": "short colour strings", "cases": strings.len() * 3, "what": format!("all {} strings of length <= 5 over {{# 0 f g e-acute}} and {} strings of 0..5 valid hex pairs followed by 12 kinds of tail, with and without #, through module_color, background_color, image_background_color, then qr_svg vs native", n_short, n_tails), "exhaustive": true}));
 
     // ---- qr(): contents and every length around the level-Q capacity edges
     let mut qc: Vec<String> = SMALL_CONTENTS.iter().map(|s| s.to_string()).collect();
